@@ -340,8 +340,9 @@ class FixedArray
             if (PySlice_GetIndicesEx(slice,_length,&s,&e,&step,&sl) == -1) {
                 boost::python::throw_error_already_set();
             }
-            // e can be -1 if the iteration is backwards with a negative slice operator [::-n] (n > 0).
-            if (s < 0 || e < -1 || sl < 0) {
+            // e can be -1 if the iteration is backwards with a negative slice operator [::-n] (n > 0),
+            // and so can s when the array is empty (the slice then selects nothing).
+            if (sl < 0 || (sl > 0 && (s < 0 || e < -1))) {
                 throw std::domain_error("Slice extraction produced invalid start, end, or length indices");
             }
             start = s;
